@@ -145,7 +145,7 @@ pub struct LibRun {
 pub fn library_run(dir: &Path, inputs: &[String], from: Option<F>, to: F, stdin: &[u8]) -> LibRun {
 	let buf = RefCell::new(Vec::new());
 	let mut tr = xt::Translator::new(SharedBuf(&buf), to.xt());
-	let mut complete_len = 0;
+	let mut complete: Vec<u8> = Vec::new();
 	let mut failed_at = None;
 	let mut stdin_used = false;
 	let list: Vec<String> = if inputs.is_empty() { vec!["-".to_string()] } else { inputs.to_vec() };
@@ -172,11 +172,26 @@ pub fn library_run(dir: &Path, inputs: &[String], from: Option<F>, to: F, stdin:
 			failed_at = Some(i);
 			break;
 		}
-		complete_len = buf.borrow().len();
+		// The bytes owed for a finished input are taken from a translation of that input ALONE on a fresh
+		// translator that is dropped before its buffer is read: what the shared translator has pushed into
+		// `buf` so far says nothing if the library itself buffers (C03 ties the two together).
+		let alone = RefCell::new(Vec::new());
+		{
+			let mut t1 = xt::Translator::new(SharedBuf(&alone), to.xt());
+			let scratch = RefCell::new(Vec::new());
+			if name == "-" {
+				let _ = guarded(&scratch, || t1.translate_reader(stdin, from.map(F::xt)));
+			} else if let Ok(data) = std::fs::read(dir.join(name)) {
+				let f = from.or_else(|| ext_format(name));
+				let _ = guarded(&scratch, || t1.translate_slice(&data, f.map(F::xt)));
+			}
+			let _ = t1.flush();
+		}
+		complete.extend_from_slice(&alone.into_inner());
 	}
 	drop(tr);
 	let bytes = buf.into_inner();
-	LibRun { complete: bytes[..complete_len].to_vec(), bytes, failed_at }
+	LibRun { complete, bytes, failed_at }
 }
 
 pub struct Canon {
